@@ -25,9 +25,11 @@ import (
 )
 
 type env struct {
-	srv  *e2e.Server
-	plan *e2e.Plan
-	bks  []*e2e.Backend
+	srv      *e2e.Server
+	plan     *e2e.Plan
+	bks      []*e2e.Backend
+	products []e2e.Product
+	clusters []e2e.Cluster
 }
 
 var envs = map[[2]int]*env{}
@@ -48,16 +50,18 @@ func getEnv(rm, mode int) *env {
 	if mode == 1 {
 		bm = "WLC"
 	}
+	products := []e2e.Product{{Name: "p", Hosts: []string{"example.org"}, Cluster: "c"},
+		{Name: "p2", Hosts: []string{"dead.example.org"}, Cluster: "c2"}}
+	// CrossRetry 2 with an empty second sub-cluster: once the in-cluster budget is used up bal.Balance returns
+	// ErrBkCrossRetryBalance twice (clusterInvoke: RetryTime++, continue, Trans.Backend kept) before ErrBkRetryTooMany;
+	// no additional attempt can happen, the counts must not move
+	clusters := []e2e.Cluster{{Name: "c", RetryMax: rm, CrossRetry: 2, RetryLevel: 1, BalanceMode: bm,
+		SubClusters: []e2e.SubCluster{{Name: "s1", Weight: 100, Backends: []*e2e.Backend{b0, b1, d}}, {Name: "s2", Weight: 0}}},
+		{Name: "c2", RetryMax: 0, SubClusters: []e2e.SubCluster{{Name: "s1", Weight: 100, Backends: []*e2e.Backend{d2}}}}}
 	srv := e2e.Start(e2e.Options{
-		Products: []e2e.Product{{Name: "p", Hosts: []string{"example.org"}, Cluster: "c"},
-			{Name: "p2", Hosts: []string{"dead.example.org"}, Cluster: "c2"}},
+		Products:       products,
 		DefaultProduct: "p", // a TLS stream connection has no Host: routed through the default product
-		// CrossRetry 2 with an empty second sub-cluster: once the in-cluster budget is used up bal.Balance returns
-		// ErrBkCrossRetryBalance twice (clusterInvoke: RetryTime++, continue, Trans.Backend kept) before ErrBkRetryTooMany;
-		// no additional attempt can happen, the counts must not move
-		Clusters: []e2e.Cluster{{Name: "c", RetryMax: rm, CrossRetry: 2, RetryLevel: 1, BalanceMode: bm,
-			SubClusters: []e2e.SubCluster{{Name: "s1", Weight: 100, Backends: []*e2e.Backend{b0, b1, d}}, {Name: "s2", Weight: 0}}},
-			{Name: "c2", RetryMax: 0, SubClusters: []e2e.SubCluster{{Name: "s1", Weight: 100, Backends: []*e2e.Backend{d2}}}}},
+		Clusters:       clusters,
 		Handlers: 1, HTTPS: true,
 		Tweak: func(cfg *bfe_conf.BfeConfig, root string) { // offer the "stream" protocol on the TLS listener
 			p := filepath.Join(root, "tls_conf", "tls_rule_conf.data")
@@ -93,7 +97,7 @@ func getEnv(rm, mode int) *env {
 		}
 		srv.Get("example.org", "/warmup")
 	}
-	e := &env{srv, plan, []*e2e.Backend{b0, b1, d}}
+	e := &env{srv: srv, plan: plan, bks: []*e2e.Backend{b0, b1, d}, products: products, clusters: clusters}
 	envs[k] = e
 	return e
 }
@@ -147,7 +151,7 @@ func impl(in hv.Val) hv.Val {
 	}
 	rm, mode := int(hv.AsInt(l[0])), int(hv.AsInt(l[1]))
 	ops := hv.AsList(l[2])
-	if rm < 0 || rm > 4 || mode < 0 || mode > 1 || len(ops) > 12 {
+	if rm < 0 || rm > 4 || mode < 0 || mode > 1 || len(ops) > 24 {
 		return hv.Err(0)
 	}
 	e := getEnv(rm, mode)
@@ -155,6 +159,16 @@ func impl(in hv.Val) hv.Val {
 	e.bks[0].Reset()
 	e.bks[1].Reset()
 	e.srv.Mod.ResetCalls()
+	allUp := func() {
+		for _, n := range []string{"bk0", "bk1", "bk2", "bk3"} {
+			if b := e.srv.BfeBackend(n); b != nil {
+				b.SetAvail(true)
+				b.SetRestart(false)
+			}
+		}
+	}
+	allUp()
+	defer allUp()
 	reqs := map[int]*reqState{}
 	// forward verdict per attempt of a request: decided from the number of HandleForward calls seen so far for that id
 	e.srv.Mod.SetScript(e2e.Script{})
@@ -199,6 +213,35 @@ func impl(in hv.Val) hv.Val {
 		op := hv.AsList(opv)
 		if len(op) < 2 {
 			return hv.Err(0)
+		}
+		if hv.AsInt(op[0]) == 4 { // administrative action on a backend; must not touch any count
+			if len(op) != 3 {
+				return hv.Err(0)
+			}
+			b, v := int(hv.AsInt(op[1])), int(hv.AsInt(op[2]))
+			if b < 0 || b > 3 || v < 0 || v > 4 {
+				return hv.Err(0)
+			}
+			bb := e.srv.BfeBackend(fmt.Sprintf("bk%d", b))
+			if bb == nil {
+				return hv.Err(2)
+			}
+			switch v {
+			case 0:
+				bb.SetAvail(false) // what UpdateStatus does when the failure threshold is reached
+			case 1:
+				bb.SetAvail(true) // what the health check does when the backend answers again
+			case 2:
+				bb.SetRestart(true)
+			case 3:
+				bb.SetRestart(false)
+			case 4:
+				if err := e.srv.Reload(e.products, "p", e.clusters); err != nil {
+					return hv.Err(3)
+				}
+			}
+			obs = append(obs, hv.L{hv.L{}, hv.I(1), hv.I(0), counts()})
+			continue
 		}
 		rid := int(hv.AsInt(op[1]))
 		if rid < 0 || rid > 2 {
@@ -394,7 +437,7 @@ func gen(r *hv.Rng, i int, tier string) (string, hv.Val) {
 	class := "seq"
 	nops := 1 + r.Intn(6)
 	conc := 0
-	ff, tun, fin := false, false, false
+	ff, tun, fin, adm := false, false, false, false
 	for k := 0; k < nops; k++ {
 		// choose: start a request on a free rid, or release a held one
 		var heldIds, free []int
@@ -409,6 +452,32 @@ func gen(r *hv.Rng, i int, tier string) (string, hv.Val) {
 			rid := heldIds[r.Intn(len(heldIds))]
 			ops = append(ops, hv.L{hv.I(2), hv.I(rid)})
 			held[rid] = false
+			continue
+		}
+		if r.Chance(1, 6) { // administrative actions while requests / tunnels may be in flight
+			adm = true
+			switch r.Intn(4) {
+			case 0: // every backend of the main cluster goes down and comes back (the holder of a held request is among them)
+				for _, b := range []int{0, 1, 2} {
+					ops = append(ops, hv.L{hv.I(4), hv.I(b), hv.I(0)})
+				}
+				if r.Bool() { // a request while nothing is available
+					if len(free) > 0 {
+						f, st, _ := genReq(r, rm, false)
+						ops = append(ops, hv.L{hv.I(1), hv.I(free[0]), f, st})
+					}
+				}
+				for _, b := range []int{2, 0, 1} {
+					ops = append(ops, hv.L{hv.I(4), hv.I(b), hv.I(1)})
+				}
+			case 1:
+				ops = append(ops, hv.L{hv.I(4), hv.I(r.Intn(4)), hv.I(r.Intn(4))})
+			case 2:
+				b := r.Intn(2)
+				ops = append(ops, hv.L{hv.I(4), hv.I(b), hv.I(0)}, hv.L{hv.I(4), hv.I(b), hv.I(1)})
+			default:
+				ops = append(ops, hv.L{hv.I(4), hv.I(0), hv.I(4)})
+			}
 			continue
 		}
 		rid := free[r.Intn(len(free))]
@@ -466,6 +535,9 @@ func gen(r *hv.Rng, i int, tier string) (string, hv.Val) {
 	if fin {
 		class += "-finishverdict"
 	}
+	if adm {
+		class += "-admin"
+	}
 	if i == 0 {
 		return "triv-one-ok", hv.L{hv.I(2), hv.I(0), hv.L{hv.L{hv.I(1), hv.I(0), hv.L{}, hv.L{hv.I(0)}}}}
 	}
@@ -473,7 +545,7 @@ func gen(r *hv.Rng, i int, tier string) (string, hv.Val) {
 }
 
 func main() {
-	hv.Main(&hv.Spec{Prop: "C07", Gen: gen, Impl: impl, NQuick: 800, NThorough: 30000})
+	hv.Main(&hv.Spec{Prop: "C07", Gen: gen, Impl: impl, NQuick: 650, NThorough: 30000})
 	for _, e := range envs {
 		e.srv.Close()
 	}
